@@ -232,6 +232,41 @@ theorem keep_on_empty_postponed_liveness :
      nextAttr := 1, nextEv := 0, nextReportedAt := 29000000, nextRetryAt := 0, nextFail := 0 },
    by decide, by decide⟩
 
+/-! ### `set_keep_unsent` is only for a report that is empty
+
+`set_keep_unsent` commits the watermarks captured when the report began although nothing was sent.
+That is sound exactly when the report was empty. It is the caller (`process_subscriptions`) that
+decides: `RespondOutcome::Empty` must mean "the filter selected nothing and no event was pending",
+never "nothing could be sent". -/
+
+/-- the caller's obligation is enough: if the filter of a live context selects no attribute at all,
+then no recorded change above its watermark touches any attribute — nothing is owed, and ending it
+with `unsent` discharges no debt (contrapositive of `owed_in_report`) -/
+theorem unsent_only_when_nothing_owed {s : State} (hc : Cov s) {c : Ctx} (hcm : c ∈ s.ctxs)
+    (hempty : ∀ ep cl attr, s.shouldReportAttr c ep cl attr = false)
+    {i : Nat} {p : Entry} (hlog : (i, p) ∈ s.log) (hlt : c.sub.seenAttr < i) (ep cl attr : Nat) :
+    p.matchesPath ep cl attr = false := by
+  cases hm : p.matchesPath ep cl attr with
+  | false => rfl
+  | true =>
+    have := owed_in_report hc hcm hlog hlt hm
+    rw [hempty] at this; cases this
+
+/-- a schedule uses `unsent` as the reporter may: only for a context whose filter selects nothing -/
+def UnsentOk (hz n : Nat) (sched : Nat → Op) : Prop :=
+  ∀ k id, sched k = .fin id .unsent → ∀ c ∈ (stateAt hz n sched k).ctxs, c.sub.id = id →
+    ∀ ep cl attr, (stateAt hz n sched k).shouldReportAttr c ep cl attr = false
+
+/-- along such a schedule an `unsent` ending never discharges a debt: whenever a context ends
+`unsent`, every recorded change above its subscription's watermark touches no attribute at all -/
+theorem unsent_discharges_nothing {hz n : Nat} {sched : Nat → Op} (hok : UnsentOk hz n sched)
+    (hw : ∀ k, (stateAt hz n sched k).changed.nextId + 1 < U64) {k id : Nat}
+    (hs : sched k = .fin id .unsent) {c : Ctx} (hcm : c ∈ (stateAt hz n sched k).ctxs)
+    (hid : c.sub.id = id) {i : Nat} {p : Entry} (hlog : (i, p) ∈ (stateAt hz n sched k).log)
+    (hlt : c.sub.seenAttr < i) (ep cl attr : Nat) : p.matchesPath ep cl attr = false :=
+  unsent_only_when_nothing_owed (inv_stateAt hz n sched hw k).2.1 hcm (hok k id hs c hcm hid) hlog hlt
+    ep cl attr
+
 /-! ## (4) timing -/
 
 /-- no report before the minimum interval after the last delivered one -/
@@ -519,6 +554,20 @@ theorem reportCompleteOld_drops_wrong_sub :
     (witness2.reportCompleteOld ctx2.commit true).cancelled = false ∧
     (((witness2.fin 2 .keep).1.fin 1 .keep).1.subs.map (·.id)) = [2] := by
   refine ⟨by decide, by rfl, by rfl, by rfl⟩
+
+/-- **and it is necessary**: ending a report `unsent` while a selected change is owed (what a reporter
+does that answers "no buffer to build the report in" with `RespondOutcome::Empty`) makes the table
+consider the change reported — the subscription stays, its watermark has moved past the change, no
+later report selects it: the change is lost although nothing was ever sent. -/
+theorem unsent_while_owed_loses_change :
+    let s0 := (witness.purge.fin 1 .keep).1            -- subscription 1 primed, owes change 1 of 1.2.3
+    let s1 := (s0.report 5000000 0).1                  -- the reporter begins its report
+    let s2 := (s1.fin 1 .unsent).1                     -- … and ends it `unsent`
+    (∃ c ∈ s1.ctxs, c.sub.id = 1 ∧ s1.shouldReportAttr c 1 2 3 = true) ∧
+    s2.subs.map (·.id) = [1] ∧ (∀ x ∈ s2.subs, x.seenAttr = 1) ∧
+    (s2.report 9000000 0).2 = none ∧
+    (∀ c ∈ ((s2.report 40000000 0).1).ctxs, (s2.report 40000000 0).1.shouldReportAttr c 1 2 3 = false) := by
+  refine ⟨by decide, by decide, by decide, by decide, by decide⟩
 
 /-! ## Eventuality
 
